@@ -10,8 +10,8 @@ from okdmr.dmrlib.etsi.fec.reed_solomon_12_9_4 import ReedSolomon1294 as RS
 
 EXPLANATION = ("C11: multiplier operands, message octets, mask octets, received word and error symbols are symbolic. generate()'s constant-operand "
                "multiplications are tabulated exhaustively over the symbolic octet (exact) so parity stays GF(2)-linear.")
-BOUNDS = {"quick": "complete: all 65,536 multiplier pairs; all 2^72 messages x all 2^24 masks; all 2^96 received words; every corruption of 1..3 symbols (symbolic positions and values)",
-          "thorough": "same plus the standard's masks as constants and the 2-safety distance form"}
+BOUNDS = {"quick": "complete: all 65,536 multiplier pairs; all 2^72 messages x all 2^24 masks; all 2^96 received words; every corruption of 1..3 symbols (symbolic positions and values); 2-safety distance form: any two generated words agreeing in 9 of the 12 octets (all 220 position sets) are equal",
+          "thorough": "same plus the standard's masks as constants"}
 OUTSIDE = "error correction (not implemented by the library)"
 ASSUMPTIONS = ["field: GF(2^8) modulo x^8+x^4+x^3+x^2+1, alpha = 2, generator roots alpha^1..alpha^3 (ETSI B.3.6)"]
 TAB = dict(tabulate_calls=["ReedSolomon1294.log_multiply"], solver_timeout_ms=300000)
@@ -95,14 +95,14 @@ def h_detect(hx):
     hx.cover("detect")
 
 
-def h_distance(hx):
+def h_distance(hx, agree):
+    """2-safety form of 'distance 4': two codewords that agree in the 9 positions `agree` (i.e. differ in at most 3) come from the same message.
+    The choice of the 9 positions is a declared split (C(12,9) = 220 cases); messages are symbolic."""
     m1, m2 = hx.bytes(9, "m"), hx.bytes(9, "n")
-    hx.assume(NOT(m1 == m2))
     c1, c2 = RS.generate(m1), RS.generate(m2)
-    cnt = 0
-    for x, y in zip(list(c1), list(c2)):
-        cnt = cnt + SInt.of(T(x != y))
-    hx.prove(cnt >= 4, "two different messages give codewords differing in at least 4 octets")
+    for i in agree:
+        hx.assume(c1[i] == c2[i])
+    hx.prove(m1 == m2, "two generated words that agree in octets %s (differ in at most 3 octets) come from the same message" % (list(agree),))
     hx.cover("distance")
 
 
@@ -114,5 +114,9 @@ def cases(tier, seed):
     if tier == "thorough":
         for mk in ("969696", "999999", "000000"):
             out.append(Case("generate-mask-" + mk, "h_gen", dict(mask=mk), covers=["gen"], budget_s=600, opts=TAB, bounds="9 symbolic message octets, mask 0x" + mk))
-        out.append(Case("distance-2safety", "h_distance", {}, covers=["distance"], budget_s=1800, opts=TAB, bounds="two symbolic 9-octet messages"))
+    if True:
+        import itertools
+        for agree in itertools.combinations(range(12), 9):
+            out.append(Case("distance-2safety-" + "".join("%x" % i for i in agree), "h_distance", dict(agree=agree), covers=["distance"], budget_s=600, opts=TAB,
+                            bounds="two symbolic 9-octet messages, codewords equal in 9 chosen positions"))
     return out
